@@ -85,9 +85,26 @@ func c06Stream(r *hx.Rand, tier string, n int, w *bufio.Writer) map[string]int {
 		if fc.c.Auth == oidc.AuthMethodNone && (strings.HasPrefix(flow, "implicit") || flow == "exchange-id" || flow == "client-credentials" || flow == "jwt-bearer") {
 			flow = "code"
 		}
-		scopeSet := hx.Pick(r, "openid", "openid profile", "openid profile email", "openid email phone custom_scope", "openid offline_access profile")
-		if flow == "refresh" {
+		scopeSet := hx.Pick(r, "openid", "openid profile", "openid profile email custom_scope", "openid email phone custom_scope custom_scope2",
+			"openid offline_access profile custom_scope", "openid custom_scope2", "openid custom_scope custom_scope2")
+		if flow == "refresh" && !strings.Contains(scopeSet, "offline_access") {
 			scopeSet += " offline_access"
+		}
+		// the client's registration restricts which granted scopes yield claims, separately for ID tokens and for access tokens
+		restrict := hx.Pick(r, "identity", "identity", "id-drops-custom", "at-drops-custom", "both-drop-custom", "cross", "cross-rev", "id-drops-email")
+		switch restrict {
+		case "id-drops-custom":
+			fc.c.IDTokenScopeDrop = []string{refstore.CustomScope}
+		case "at-drops-custom":
+			fc.c.AccessTokenScopeDrop = []string{refstore.CustomScope}
+		case "both-drop-custom":
+			fc.c.IDTokenScopeDrop, fc.c.AccessTokenScopeDrop = []string{refstore.CustomScope}, []string{refstore.CustomScope}
+		case "cross":
+			fc.c.IDTokenScopeDrop, fc.c.AccessTokenScopeDrop = []string{refstore.CustomScope}, []string{refstore.CustomScope2}
+		case "cross-rev":
+			fc.c.IDTokenScopeDrop, fc.c.AccessTokenScopeDrop = []string{refstore.CustomScope2}, []string{refstore.CustomScope}
+		case "id-drops-email":
+			fc.c.IDTokenScopeDrop = []string{"email"}
 		}
 		nonce := hx.Pick(r, "", "n-7")
 		redirect := fc.c.Redirects[0]
@@ -106,6 +123,7 @@ func c06Stream(r *hx.Rand, tier string, n int, w *bufio.Writer) map[string]int {
 		code := ""
 		var reqAuthTime int64
 		reqSubject, reqAMR := "user1", []string{"pwd"}
+		markFn := func() {} // set below: remembers how often the scope-driven storage methods were called so far
 		loginAndCallback := func(respType string) *opbed.Resp {
 			resp := bed.Do(bed.Get("/authorize", authQ(respType), ""))
 			if resp.Loc == nil {
@@ -116,6 +134,7 @@ func c06Stream(r *hx.Rand, tier string, n int, w *bufio.Writer) map[string]int {
 			if ar := bed.Store.GetAuthRequest(id); ar != nil {
 				reqAuthTime = ar.AuthTime.Unix()
 			}
+			markFn()
 			return bed.Do(bed.Get("/authorize/callback", url.Values{"id": {id}}, ""))
 		}
 		codeExchange := func() *opbed.Resp {
@@ -127,9 +146,25 @@ func c06Stream(r *hx.Rand, tier string, n int, w *bufio.Writer) map[string]int {
 			if fc.c.Auth == oidc.AuthMethodNone {
 				f.Set("code_verifier", "verifier-FFFFFFFFFFFFFFFFFFFFFFFFFFFFFFFFFFFFFFFFFFF")
 			}
+			markFn()
 			return bed.Do(bed.Form("/oauth/token", f, ownAuth(sy, fc)))
 		}
 		withAT := true
+		// the scope lists the storage is asked about DURING the token-issuing request (not during the requests that prepare it)
+		asked := map[string]int{}
+		mark := func() {
+			for _, m := range []string{"SetUserinfoFromScopes", "SetUserinfoFromRequest", "GetPrivateClaimsFromScopes"} {
+				asked[m] = len(bed.Store.ScopesAsked(m))
+			}
+		}
+		askedSince := func(m string) string {
+			all := bed.Store.ScopesAsked(m)
+			if len(all) <= asked[m] {
+				return "-"
+			}
+			return strings.Join(all[len(all)-1], "+")
+		}
+		markFn = mark
 		switch flow {
 		case "code":
 			tokenResp = codeExchange().JSON
@@ -151,6 +186,7 @@ func c06Stream(r *hx.Rand, tier string, n int, w *bufio.Writer) map[string]int {
 		case "refresh":
 			first := codeExchange()
 			code = ""
+			mark()
 			tokenResp = bed.Do(bed.Form("/oauth/token", url.Values{"grant_type": {"refresh_token"}, "refresh_token": {first.Str("refresh_token")}}, ownAuth(sy, fc))).JSON
 			nonce = "" // a refresh request carries no nonce
 		case "device":
@@ -158,6 +194,7 @@ func c06Stream(r *hx.Rand, tier string, n int, w *bufio.Writer) map[string]int {
 			if uc := da.Str("user_code"); uc != "" {
 				bed.Store.ApproveDevice(uc, "user1")
 			}
+			mark()
 			tokenResp = bed.Do(bed.Form("/oauth/token", url.Values{"grant_type": {string(oidc.GrantTypeDeviceCode)}, "device_code": {da.Str("device_code")}}, ownAuth(sy, fc))).JSON
 			nonce, reqAuthTime = "", 0
 			reqAMR = nil
@@ -177,6 +214,7 @@ func c06Stream(r *hx.Rand, tier string, n int, w *bufio.Writer) map[string]int {
 				f.Set("subject_token", first.Str("access_token"))
 				f.Set("subject_token_type", ttAccess)
 			}
+			mark()
 			ex := bed.Do(bed.Form("/oauth/token", f, ownAuth(sy, fc)))
 			tokenResp = map[string]any{}
 			if ex.Status == 200 {
@@ -188,11 +226,11 @@ func c06Stream(r *hx.Rand, tier string, n int, w *bufio.Writer) map[string]int {
 			now := time.Now().Unix()
 			l := hx.NewLine("x")
 			a := assertion(sy, l, cls[4].key, cls[4].kid, "pk", "pk", []string{opbed.Issuer}, now-5, now+300)
-			tokenResp = bed.Do(bed.Form("/oauth/token", url.Values{"grant_type": {string(oidc.GrantTypeBearer)}, "assertion": {a}, "scope": {"openid"}}, opbed.Auth{Kind: "none"})).JSON
+			tokenResp = bed.Do(bed.Form("/oauth/token", url.Values{"grant_type": {string(oidc.GrantTypeBearer)}, "assertion": {a}, "scope": {scopeSet}}, opbed.Auth{Kind: "none"})).JSON
 			reqSubject = "pk"
 			skew = 0 // the jwt-bearer grant has no registered client whose clock skew would apply
 		case "client-credentials":
-			tokenResp = bed.Do(bed.Form("/oauth/token", url.Values{"grant_type": {"client_credentials"}, "scope": {"openid"}}, ownAuth(sy, fc))).JSON
+			tokenResp = bed.Do(bed.Form("/oauth/token", url.Values{"grant_type": {"client_credentials"}, "scope": {scopeSet}}, ownAuth(sy, fc))).JSON
 			reqSubject = fc.c.ID
 		}
 		str := func(k string) string {
@@ -203,6 +241,21 @@ func c06Stream(r *hx.Rand, tier string, n int, w *bufio.Writer) map[string]int {
 		l := hx.NewLine("C06").I("case", int64(i)).S("router", router).S("flow", flow).S("alg", sg.alg).S("r.iss", opbed.Issuer).S("r.client", fc.c.ID).
 			S("r.sub", reqSubject).S("r.nonce", nonce).I("r.authtime", reqAuthTime).L("r.amr", reqAMR).L("r.scopes", strings.Split(scopeSet, " ")).
 			I("r.lifetime", int64(lifetime/time.Second)).I("r.skew", int64(skew/time.Second)).B("r.assert", fc.c.AssertUserinfo).B("r.withat", withAT && accessToken != "")
+		// the granted scopes as the client's registration restricts them per token kind (reference filter, not the client's function).
+		// Token exchange hands the REQUEST to the storage (SetUserinfoFromTokenExchangeRequest): the restriction is the storage's there;
+		// the jwt-bearer grant has no registered client (identity).
+		granted := strings.Split(scopeSet, " ")
+		idScopes, atScopes := refDrop(granted, fc.c.IDTokenScopeDrop), refDrop(granted, fc.c.AccessTokenScopeDrop)
+		if flow == "exchange-id" {
+			idScopes = granted
+		}
+		if flow == "jwt-bearer" {
+			atScopes = granted
+		}
+		fillsID := bed.Store.UserinfoInIDToken || bed.Cfg.Caps.UserinfoFromReq || flow == "exchange-id"
+		l.S("restrict", restrict).L("r.iddrop", fc.c.IDTokenScopeDrop).L("r.atdrop", fc.c.AccessTokenScopeDrop).L("r.idscopes", idScopes).L("r.atscopes", atScopes).
+			B("r.fillsid", fillsID).B("r.fillsat", true).B("cap.uireq", bed.Cfg.Caps.UserinfoFromReq).B("r.code", code != "" && flow == "code").
+			S("j.ui", askedSince("SetUserinfoFromScopes")).S("j.uireq", askedSince("SetUserinfoFromRequest")).S("j.priv", askedSince("GetPrivateClaimsFromScopes"))
 		if idToken == "" && accessToken == "" {
 			l.S("obs", "no-tokens")
 			stats["no-tokens-"+flow]++
@@ -211,6 +264,7 @@ func c06Stream(r *hx.Rand, tier string, n int, w *bufio.Writer) map[string]int {
 			continue
 		}
 		l.S("obs", "tokens")
+		var idUser []string
 		// ---- the ID token through the library's own RP verifier, against the provider's PUBLISHED key set
 		if idToken != "" {
 			algs := []string{}
@@ -248,12 +302,30 @@ func c06Stream(r *hx.Rand, tier string, n int, w *bufio.Writer) map[string]int {
 			// c_hash
 			chOK := true
 			if claims.CodeHash != "" || code != "" && flow == "code" {
-				want := hx.RefClaimHash(code, sg.alg) // reference hash: standard library only
+				want := hx.RefClaimHash(code, sg.alg)                   // reference hash: standard library only
 				chOK = claims.CodeHash == "" || claims.CodeHash == want // c_hash is optional in the token response
 			}
 			l.B("o.chash", chOK)
 			// at_hash: when present it must be the spec hash of the access token of this very response
 			l.B("o.athash", claims.AccessTokenHash == "" || accessToken == "" || claims.AccessTokenHash == hx.RefClaimHash(accessToken, sg.alg))
+			// the hashes in the symbolic spelling of the model: over the access token, the code, or something else
+			canon := func(h string) string {
+				fam := hx.HashFamily(sg.alg)
+				switch {
+				case h == "":
+					return ""
+				case accessToken != "" && h == hx.RefClaimHash(accessToken, sg.alg):
+					return "H(" + fam + "/2,AT)"
+				case code != "" && h == hx.RefClaimHash(code, sg.alg):
+					return "H(" + fam + "/2,CODE)"
+				case h == hx.RefClaimHash(accessToken+code, sg.alg):
+					return "H(" + fam + "/2,ATCODE)"
+				case h == hx.RefClaimHash(code+accessToken, sg.alg):
+					return "H(" + fam + "/2,CODEAT)"
+				}
+				return "other"
+			}
+			l.S("o.athashsym", canon(claims.AccessTokenHash)).S("o.chashsym", canon(claims.CodeHash))
 			// user claims present
 			var user []string
 			if m, ok := opbed.DecodeJWT(idToken); ok {
@@ -265,6 +337,7 @@ func c06Stream(r *hx.Rand, tier string, n int, w *bufio.Writer) map[string]int {
 			}
 			sort.Strings(user)
 			l.L("o.userclaims", user)
+			idUser = user
 		}
 		// ---- the access token
 		if accessToken != "" {
@@ -274,6 +347,33 @@ func c06Stream(r *hx.Rand, tier string, n int, w *bufio.Writer) map[string]int {
 				l.B("o.jwtat", true).B("o.atverifies", aerr == nil)
 				if ac != nil {
 					l.S("a.iss", ac.Issuer).S("a.sub", ac.Subject)
+				}
+				// private (non-registered) claims of the JWT access token
+				var priv []string
+				if m, ok := opbed.DecodeJWT(accessToken); ok {
+					for k := range m {
+						if !registeredIDClaims[k] && k != "scope" {
+							priv = append(priv, k)
+						}
+					}
+				}
+				sort.Strings(priv)
+				l.L("o.atuserclaims", priv)
+				for _, cs := range [][2]string{{refstore.CustomScope, refstore.CustomClaim}, {refstore.CustomScope2, refstore.CustomClaim2}} {
+					if !containsStr(granted, cs[0]) || idToken == "" || !fillsID {
+						continue
+					}
+					inID, inAT := containsStr(idUser, cs[1]), containsStr(priv, cs[1])
+					switch {
+					case inID && !inAT:
+						stats["cross-claim-in-id_token-only"]++
+					case !inID && inAT:
+						stats["cross-claim-in-access_token-only"]++
+					case inID && inAT:
+						stats["cross-claim-in-both"]++
+					default:
+						stats["cross-claim-in-neither"]++
+					}
 				}
 			} else {
 				ok := false
@@ -307,8 +407,23 @@ func c06Stream(r *hx.Rand, tier string, n int, w *bufio.Writer) map[string]int {
 		}
 		stats["flow-"+flow]++
 		stats["alg-"+sg.alg]++
+		stats["restrict-"+restrict]++
+		if strings.Count(accessToken, ".") == 2 {
+			stats["restrict-"+restrict+"-with-jwt-at"]++
+		}
 		fmt.Fprintln(w, l.String())
 		srv.Close()
 	}
 	return stats
+}
+
+// refDrop: scopes without the dropped ones (reference for what a client's restriction function must yield)
+func refDrop(scopes, drop []string) []string {
+	out := []string{}
+	for _, s := range scopes {
+		if !containsStr(drop, s) {
+			out = append(out, s)
+		}
+	}
+	return out
 }
